@@ -336,3 +336,12 @@ func SdkInt(name string) sdkmath.Int {
 // counterexamples are re-checked against the real rule. Sound for properties that hold whatever the rule accepts.
 // In the same mode strings.TrimSpace is fully uninterpreted except for its emptiness test.
 func AbstractIdentifiers(on bool) {}
+
+// StClosePrefix declares that the pre-state of the named store holds no key with the given prefix: the keys in that
+// range are then exactly those the harness (through the real setters) and the code under test write, which is what
+// lets the engine enumerate them for iterators. Native replay: the store starts empty there anyway.
+func StClosePrefix(ctx context.Context, store string, prefix []byte) {}
+
+// LightDecimals(true): decimal formatting of integers is characterised by its inverse and by "1..20 digits" only (the
+// no-leading-zeros fact is dropped): enough for keys that embed decimal heights, much cheaper for the string solvers.
+func LightDecimals(on bool) {}
